@@ -12,6 +12,7 @@ from common import CoqEvalError, c_bool, c_list, c_nat, c_str
 
 from golem.core.dag.graph_node import GraphNode
 from golem.core.dag.linked_graph import LinkedGraph
+from golem.core.dag.linked_graph_node import LinkedGraphNode
 from golem.core.optimisers.graph import OptGraph, OptNode
 
 
@@ -244,11 +245,35 @@ for _p in BIG_PARAMS:
     BIG_TOKENS.append(_tok)
 
 
+# ---- how the parents reach a stock node: the constructor argument / the nodes_from setter are annotated
+# Optional[Iterable[node]], so every iterable below denotes the same parent list as the list of its elements
+# (one-shot iterators included).  The Coq side sees the tree only.
+FEEDS = ['ctor-list', 'ctor-tuple', 'ctor-gen', 'ctor-iter', 'ctor-map', 'ctor-keys', 'ctor-set',
+         'set-gen', 'set-iter', 'set-tuple', 'linked-ctor-gen']
+
+
+def feed_node(feed, name, params, kids):
+    how, kind = feed.rsplit('-', 1)
+    it = {'list': lambda: list(kids), 'tuple': lambda: tuple(kids), 'gen': lambda: (k for k in kids),
+          'iter': lambda: iter(list(kids)), 'map': lambda: map(lambda k: k, kids),
+          'keys': lambda: dict.fromkeys(kids).keys(), 'set': lambda: set(kids)}[kind]()
+    if how == 'set':
+        nd = OptNode(content_of(name, params))
+        nd.nodes_from = it
+    elif how == 'linked-ctor':
+        nd = LinkedGraphNode(content_of(name, params), nodes_from=it)
+    else:
+        nd = OptNode(content_of(name, params), nodes_from=it)
+    return nd
+
+
 def build_tree_node(t, protos=None, nkind='stock'):
     """protos (a dict) given: every node is a deepcopy of one prototype node per label, so all nodes of the
     tree that carry the same label are distinct objects sharing one uid (deepcopy keeps uids)"""
     name, params = LABELS[t[0]]
     kids = [build_tree_node(c, protos, nkind) for c in t[1]]
+    if ':' in nkind:        # 'stock:<feed>': stock node, parents handed over as the iterable named by the feed
+        return feed_node(nkind.split(':', 1)[1], name, params, kids)
     if protos is None:
         nd = make_node(nkind, name, params)
         nd.nodes_from = kids
@@ -891,7 +916,9 @@ def run(ctx):
     ctx.rule = ('(a) trees: every ordered pair of labelled plane trees (quick: <=5 nodes over {a,b} and <=3 nodes over 4 '
                 'labels two of which differ in params only; thorough: <=6 nodes over {a,b}, <=4 nodes over {a,b,c} '
                 'and <=4 nodes over the 4 labels; plus a pool holding every tree <=4 (thorough <=5) nodes over {a,b} twice: '
-                'from fresh nodes and from deepcopies sharing one uid per label; plus <=3 (thorough <=4) nodes over the '
+                'from fresh nodes and from deepcopies sharing one uid per label; plus every tree <=3 (thorough <=4) nodes over {a,b} and '
+                '<=4 nodes over {a} once per way of handing the parents over [constructor / setter x list, tuple, generator, '
+                'list iterator, map object, dict keys view, set]; plus <=3 (thorough <=4) nodes over the '
                 'names a, 0, False, 0.0 [non-string, falsy]; plus every tree <=4 nodes over {a,b} held by each of LinkedGraph, '
                 'OptGraph and a subclass of each [thorough also <=5 nodes x LinkedGraph/OptGraph]; plus trees <=2 nodes over '
                 'the labels with big params [5/12 keys, 41/200-char strings, 10-item list/tuple, nesting 8] in pairs '
@@ -960,7 +987,12 @@ def run(ctx):
         run_tree_pool(ctx, 'trees-graph-classes-5', base + base, workers=6,
                       classes=['LinkedGraph'] * len(base) + ['OptGraph'] * len(base))
         ctx.set_exhaustive('trees-graph-classes-5', True)
-    # every tree once from fresh nodes and once from deepcopies that share one uid per label
+    # every small tree once per way of handing the parents to a node (list / tuple / generator / list iterator / map
+    # object / dict keys view / set; constructor argument and nodes_from setter): all ordered pairs across the feeds
+    base = all_trees(ctx.pick(3, 4), 'ab') + all_trees(4, 'a')[4:]
+    fk = ['stock'] + ['stock:' + f for f in FEEDS]
+    run_tree_pool(ctx, 'trees-parent-feeds', base * len(fk), workers=1, kinds=[k for k in fk for _ in base])
+    ctx.set_exhaustive('trees-parent-feeds', True)
     base = all_trees(ctx.pick(4, 5), 'ab')
     run_tree_pool(ctx, 'trees-shared-uid', base + base, workers=ctx.pick(1, 6),
                   shared=[False] * len(base) + [True] * len(base))
